@@ -42,8 +42,19 @@ type tbInst struct {
 // render one package from instances; returns co source, ref source, main source
 func tbRender(pkg string, insts []tbInst, fuel, pulls int) (co, ref, main string, errs []string) {
 	var cb, rb, mb strings.Builder
-	fmt.Fprintf(&cb, "package %s\n\nimport (\n\t\"scratch/vm\"\n\t\"github.com/goghcrow/go-co\"\n)\n\nvar _ = vm.E\n", pkg)
-	fmt.Fprintf(&rb, "package %sref\n\nimport \"scratch/vm\"\n\nvar _ = vm.E\n", pkg)
+	// extra imports of the templates of this package (Template.Imports: `"a"; "b"`), each once, with a blank use
+	extra, seenImp := "", map[string]bool{}
+	for _, in := range insts {
+		for _, imp := range strings.Split(in.t.Imports, ";") {
+			imp = strings.TrimSpace(imp)
+			if imp != "" && !seenImp[imp] {
+				seenImp[imp] = true
+				extra += "\t" + imp + "\n"
+			}
+		}
+	}
+	fmt.Fprintf(&cb, "package %s\n\nimport (\n\t\"scratch/vm\"\n\t\"github.com/goghcrow/go-co\"\n%s)\n\nvar _ = vm.E\n", pkg, extra)
+	fmt.Fprintf(&rb, "package %sref\n\nimport (\n\t\"scratch/vm\"\n%s)\n\nvar _ = vm.E\n", pkg, extra)
 	fmt.Fprintf(&mb, "package main\n\nimport (\n\t\"fmt\"\n\t\"strings\"\n\t\"scratch/vm\"\n\tout \"scratch/out/%s\"\n\ttmp \"scratch/tmp/%s\"\n\tref \"scratch/ref/%s\"\n)\n\nvar _ = strings.Join\n\nfunc main() {\n", pkg, pkg, pkg)
 	for _, in := range insts {
 		c, e1 := tb.Render(in.t.Src, in.prefix, false, "co")
